@@ -112,7 +112,7 @@ def run(ids):
             print(n, entry["error"])
             continue
         try:
-            for tier in ("quick", "thorough"):
+            for tier in TIERS:
                 t0 = time.time()
                 rc, out = sh(f"/verif/check {prop} --tier {tier}", timeout=7200)
                 lines = [l for l in out.splitlines() if l.startswith("VIOLATION") or "failing input" in l or "obligation" in l.lower()]
@@ -124,14 +124,19 @@ def run(ids):
         finally:
             sh("git -C /repo checkout -- . && git -C /repo clean -fdq")
         results[n] = entry
-        print(n, "DETECTED by " + entry["detected_by"] if entry["detected"] else "MISSED", json.dumps(entry.get(entry["detected_by"] or "thorough", {}).get("lines", []))[:300])
+        print(n, "DETECTED by " + entry["detected_by"] if entry["detected"] else "MISSED", json.dumps(entry.get(entry["detected_by"] or TIERS[-1], {}).get("lines", []))[:300])
         sys.stdout.flush()
         json.dump(results, open(results_path, "w"), indent=1, sort_keys=True)
     # leave the generated facts and binaries matching the clean tree again
     sh("/verif/check --setup", timeout=3600)
 
 
+TIERS = ("quick", "thorough")
+
 if __name__ == "__main__":
+    if "--quick-only" in sys.argv:
+        sys.argv.remove("--quick-only")
+        TIERS = ("quick",)
     os.makedirs(SEEDED, exist_ok=True)
     if len(sys.argv) >= 2 and sys.argv[1] == "confirm":
         confirm(sys.argv[2:])
